@@ -87,8 +87,18 @@ private:
         {
             v_real.noalias() = m_fac.matrix_V() * m_ritz_vec.col(i).real();
             v_imag.noalias() = m_fac.matrix_V() * m_ritz_vec.col(i).imag();
-            m_op.perform_op(v_real.data(), OPv_real.data());
-            m_op.perform_op(v_imag.data(), OPv_imag.data());
+            try
+            {
+                m_op.perform_op(v_real.data(), OPv_real.data());
+                m_op.perform_op(v_imag.data(), OPv_imag.data());
+            }
+            catch (...)
+            {
+                // The user's operator failed: put back the shift of the problem
+                // before passing the exception on, so that the solver stays usable
+                m_op.set_shift(m_sigmar, m_sigmai);
+                throw;
+            }
 
             // Two roots computed from the quadratic equation
             const Complex nu = m_ritz_val[i];
